@@ -262,7 +262,7 @@ def run(ctx):
     ctx.rule("R-C20-10", "get_subgraph unwraps the constructor's result: its edge argument holds every stored edge at most once (taken from get_all_edges alone), so DuplicateEdge cannot arise")
     subgraph_edge_source(ctx, prog, flows, "R-C20-10", "a repeated edge makes new_from_nodes_and_edges answer DuplicateEdge, and get_subgraph (and modularity / Louvain above it) unwrap that")
     n9 = check_unwrapped_callee_kinds(ctx, prog, flows, "R-C20-9", None, "a call that used to return a value now panics on the input that takes the new error path")
-    ctx.floor("R-C20-9", "unwrapped_crate_calls", n9, 25)
+    ctx.floor("R-C20-9", "unwrapped_crate_calls", n9, 12)
     # R-C20-5: recursion inventory
     cg = prog.call_graph()
     rec = [c for c in prog.sccs(set(prog.bodies)) if len(c) > 1 or c[0] in cg.get(c[0], ())]
@@ -466,6 +466,20 @@ def sanitized_here(fl, site_bb, desc):
             sl_ = fl.slice_local({("L", l["i"])}, data_only=True)
             if any(n[0] == "L" and n[1] in root_locals for n in sl_):
                 roots.add(nm_)
+    coll_roots = set()
+    # ... and upwards: a root that is an ELEMENT of a named collection of names (`for source in sources`, the loop form
+    # of `sources.into_iter().map(|source| ..)`) is covered by a test on the collection (`has_nodes(&sources)`)
+    for r in list(roots):
+        for l in b.locals_named(r):
+            if l <= b.arg_count:
+                continue
+            sl_ = fl.slice_local({("L", l)}, data_only=True)
+            for n in sl_:
+                if n[0] == "L" and isinstance(n[1], int):
+                    nm_ = b.local_name(n[1])
+                    ty_ = b.local_ty(n[1])
+                    if nm_ and nm_ not in roots and name_typed(ty_) and (ty_.startswith("std::vec::Vec<") or ty_.startswith("&[") or ty_.startswith("&std::vec::Vec<") or ty_.startswith("&mut std::vec::Vec<")):
+                        coll_roots.add(nm_)
     good_edges = []
     why = []
     # `if let Some(n) = root` / `match root { None => .., Some(n) => .. }`: on the None edge there is no name
@@ -484,6 +498,7 @@ def sanitized_here(fl, site_bb, desc):
             good_edges.append((bb, none_succ))
             why.append("None edge at %s" % loc_str(b.blocks[bb].term.span))
     mentions_root = lambda k: desc_mentions(k, lambda d: d[0] == "place" and d[1].split(".")[0].split("[")[0] in roots)
+    mentions_coll = lambda k: desc_mentions(k, lambda d: d[0] == "place" and d[1] in coll_roots)
     for (bb, test, t_succ, f_succ) in bool_atoms(fl):
         if isinstance(test, tuple) and test[0] == "place" and "." not in test[1]:
             # a named boolean: the edge on which it is true / false implies the tests it was computed from
@@ -502,6 +517,10 @@ def sanitized_here(fl, site_bb, desc):
             if any(mentions_root(k) for k in test[2][1:]) and t_succ is not None:
                 good_edges.append((bb, t_succ))
                 why.append("%s at %s" % (nm, loc_str(b.blocks[bb].term.span)))
+            elif nm == "has_nodes" and any(mentions_coll(k) for k in test[2][1:]) and t_succ is not None:
+                # the whole collection the name is an element of was checked
+                good_edges.append((bb, t_succ))
+                why.append("has_nodes(collection) at %s" % loc_str(b.blocks[bb].term.span))
         elif nm in ("is_none", "is_err") and test[2]:
             if desc_mentions(test, lambda d: d[0] == "call" and d[1].split("::")[-1] in ("get_node", "get_node_index", "get")) and mentions_root(test):
                 if f_succ is not None:
